@@ -12,6 +12,7 @@ func main() {
 		{Name: "samplers", Gen: genSamplers},
 		{Name: "views", Gen: genViews},
 		{Name: "repeat", Gen: genRepeat},
+		{Name: "index-order", Gen: genIndexOrder},
 	}
 	if !noasmBuild {
 		// Only the groups above reach code with assembly kernels (floats.Sum in
